@@ -410,12 +410,12 @@ func v3write(r *cv.Rand, kp v3params, key, pw, salt, iv []byte, id string, o fil
 }
 
 type v3doc struct {
-	ok                 bool // structurally readable by this reader
-	cipher, kdf, prf   string
-	n, r, p, c, dklen  int
-	haveInts           bool
-	salt, iv, ct, mac  []byte
-	id                 string
+	ok                bool // structurally readable by this reader
+	cipher, kdf, prf  string
+	n, r, p, c, dklen int
+	haveInts          bool
+	salt, iv, ct, mac []byte
+	id                string
 }
 
 func hexField(n *jnode) ([]byte, bool) {
@@ -568,12 +568,12 @@ func withScriptedRand(stream []byte, f func()) (consumed int) {
 // ---------------------------------------------------------------------------------------------
 
 type readObs struct {
-	cls         int
-	key, addr   []byte
-	id          []byte
-	meta        *jnode
-	errWithKey  bool
-	errText     string
+	cls        int
+	key, addr  []byte
+	id         []byte
+	meta       *jnode
+	errWithKey bool
+	errText    string
 }
 
 func implRead(doc, pw []byte) (o readObs) {
@@ -617,9 +617,9 @@ type desc struct {
 }
 
 type ctx struct {
-	w    *cv.Writer
-	st   *cv.Stats
-	seen map[string]bool
+	w     *cv.Writer
+	st    *cv.Stats
+	seen  map[string]bool
 	salts map[string]bool
 }
 
@@ -1001,7 +1001,7 @@ func main() {
 	// ---------- A. creation ----------
 	extraSets := [][]extra{
 		nil,
-		{{"address", nil}},                              // removes the address
+		{{"address", nil}}, // removes the address
 		{{"address", "0xCustom-Address"}, {"bjj", "0x1234"}}, // overrides it, adds a field
 		{{"count", 5}, {"ratio", 1.5}, {"big", 1e21}, {"neg", -7}, {"flag", true}, {"nested", map[string]interface{}{"a": []interface{}{1, "two", nil, false}, "b": map[string]interface{}{}}}},
 		{{"id", "not-the-id"}, {"version", 99}, {"crypto", "overridden?"}}, // protected core fields
@@ -1082,7 +1082,7 @@ func main() {
 			kp := v3params{kdf: "pbkdf2", c: cc}
 			key := r.Bytes([]int{32, 17}[j])
 			pw := pws[i%len(pws)]
-			o := fileOpts{upperHex: j == 1, shuffle: j == 1, indent: i%3 == 0, extra: i%2 == 0}
+			o := fileOpts{upperHex: j == 1, shuffle: j == 1, indent: j == 1 && i%3 == 0, extra: i%2 == 0}
 			doc := v3write(r, kp, key, pw, r.Bytes(32), r.Bytes(16), newID(r), o)
 			c.addRead(doc, pw, "external-pbkdf2", fmt.Sprintf("c=%d", cc))
 			bases = append(bases, base{doc, pw, key, kp})
@@ -1097,14 +1097,27 @@ func main() {
 
 	// ---------- C. wrong passwords, tampering ----------
 	// small-cost bases for the systematic sweeps
-	var cheap []base
+	// (interleaved so that every prefix holds both KDFs; the pbkdf2 base with c = 1 comes first: c = 0 next to it is
+	// the case where x/crypto's behaviour for c <= 0 would keep the MAC valid)
+	var cheapS, cheapP, cheap []base
 	for _, b := range bases {
-		if (b.kp.kdf == "scrypt" && b.kp.n*b.kp.r*b.kp.p <= 2048) || (b.kp.kdf == "pbkdf2" && b.kp.c <= 1000) {
-			if !strings.Contains(b.doc, "\n") && strings.ToLower(b.doc) == b.doc {
-				cheap = append(cheap, b)
+		if !strings.Contains(b.doc, "\n") && strings.ToLower(b.doc) == b.doc {
+			if b.kp.kdf == "scrypt" && b.kp.n*b.kp.r*b.kp.p <= 2048 {
+				cheapS = append(cheapS, b)
+			} else if b.kp.kdf == "pbkdf2" && b.kp.c <= 1000 {
+				cheapP = append(cheapP, b)
 			}
 		}
 	}
+	for i := 0; i < len(cheapS) || i < len(cheapP); i++ {
+		if i < len(cheapP) {
+			cheap = append(cheap, cheapP[i])
+		}
+		if i < len(cheapS) {
+			cheap = append(cheap, cheapS[i])
+		}
+	}
+	st.Extra["cheap_bases"] = fmt.Sprintf("%d scrypt, %d pbkdf2", len(cheapS), len(cheapP))
 	for bi, b := range bases {
 		for wi, w := range wrongPasswords(b.pw) {
 			if !thorough && (bi+wi)%4 != 0 {
@@ -1113,7 +1126,7 @@ func main() {
 			c.addRead(b.doc, w, "wrong-password", "")
 		}
 	}
-	nSweep := 2
+	nSweep := 3
 	if thorough {
 		nSweep = len(cheap)
 	}
@@ -1140,7 +1153,7 @@ func main() {
 		}
 	}
 	for bi, b := range cheap {
-		if !thorough && bi >= 6 {
+		if !thorough && bi >= 8 {
 			break
 		}
 		mut := func(name string, vals ...int) {
@@ -1169,7 +1182,7 @@ func main() {
 	}
 	// truncated / extended ciphertext and MAC, swapped kdf, foreign prf
 	for bi, b := range cheap {
-		if bi >= 3 {
+		if bi >= 4 {
 			break
 		}
 		d := v3parse(mustTree(b.doc))
